@@ -366,7 +366,11 @@ func (pw *probeWorld) probeUDP(p probe, want modelReply) measured {
 	w.Net.Lock()
 	dg0 := len(w.Net.Datagrams)
 	w.Net.Unlock()
-	pc, err := w.Net.ListenPacket(context.Background(), "udp", "", "")
+	laddr := ""
+	if p.From != "" {
+		laddr = p.From + ":0"
+	}
+	pc, err := w.Net.ListenPacket(context.Background(), "udp", laddr, "")
 	if err != nil {
 		return measured{closeReqs: -1}
 	}
